@@ -468,6 +468,37 @@ pub fn skip_one(proto: Proto, input: &[u8], t: u8) -> Result<(usize, usize), Str
     }
 }
 
+/// Skipping a value must leave the compact reader's private context (last field id, id stack, pending bool)
+/// exactly as it found it. Returns a description of the difference, if any (sync and async compact readers).
+pub fn skip_state_compact(input: &[u8], t: u8) -> Option<String> {
+    let r = catch_unwind(AssertUnwindSafe(|| -> Option<String> {
+        let tt = crate::interp::ttype(t);
+        let mut b = Bytes::copy_from_slice(input);
+        let mut p = compact::TCompactInputProtocol::new(&mut b);
+        let s0 = p.verif_state();
+        if p.skip(tt).is_err() {
+            return None; // a failing skip is judged by the other checks
+        }
+        let s1 = p.verif_state();
+        if s0 != s1 {
+            return Some(format!("sync: before {s0:?} after {s1:?}"));
+        }
+        let mut rd = ScriptedReader::new(input.to_vec(), vec![], 7);
+        let mut ap = compact::TAsyncCompactProtocol::new(&mut rd);
+        let a0 = ap.verif_state();
+        let ok = block_on(Box::pin(async { ap.skip(tt).await.is_ok() }), 10_000_000);
+        if ok != Some(true) {
+            return None;
+        }
+        let a1 = ap.verif_state();
+        if a0 != a1 {
+            return Some(format!("async: before {a0:?} after {a1:?}"));
+        }
+        None
+    }));
+    r.unwrap_or(None)
+}
+
 /// The unchecked reader's `skip` must be called right after `read_field_begin`: input is a field
 /// header followed by the value. Returns (reported, consumed including the 3 header bytes).
 pub fn skip_field_unsafe(input: &[u8]) -> Result<(usize, usize), String> {
